@@ -5,7 +5,7 @@
              T, V  = - | uid:diff:age:payload,...
    output: OK # <op> <ret> <clrT> <clrV> <unconsumed draws> <T> <V> # ...   (or ... # <op> NONE)
            plus, for di/ds, the weights in array order before the partition:  w=<w1,w2,...>
-   Q <s>                      -> target_q s
+   Q <s>                      -> target_q s, tsz_f64 s
    U <p|f> <a|d|h> <dss> <perc> -> tuned dss and perc (pinned / fixed tree)            *)
 let zs s = z_of_dec s
 let sz z = dec_of_z z
@@ -54,7 +54,7 @@ let () =
       let line = input_line stdin in
       match split_ws line with
       | "M" :: perc :: gap :: t :: v :: ops ->
-          let cfg = { perc = big_of_dec perc; gap = big_of_dec gap; tsz = target_q } in
+          let cfg = { perc = big_of_dec perc; gap = big_of_dec gap; tsz = tsz_f64 } in
           let st = ref { training = parse_set t; validation = parse_set v; clr_t = Z0; clr_v = Z0 } in
           let buf = Buffer.create 4096 in
           Buffer.add_string buf "OK";
@@ -94,7 +94,7 @@ let () =
                     (big_dec st1.clr_v) (List.length ds1) (show_set st1.training) (show_set st1.validation) extra)) ops
           with Exit -> ());
           print_endline (Buffer.contents buf)
-      | ["Q"; s] -> print_endline ("OK " ^ big_dec (target_q (big_of_dec s)))
+      | ["Q"; s] -> print_endline ("OK " ^ big_dec (target_q (big_of_dec s)) ^ " " ^ big_dec (tsz_f64 (big_of_dec s)))
       | ["W"; t] ->
           (* weights of a set, in order, and their wrapped sum *)
           let l = parse_set t in
